@@ -1,6 +1,6 @@
 (* C03 lemmas, part 3: when the construction succeeds the instance has no missing value anywhere. *)
 From Coq Require Import List String Bool Arith Lia.
-From PAFC01 Require Import ModelTree Proofs6.
+From PAFC01 Require Import ModelTree Proofs8.
 From PAFC03 Require Import Model Proofs Proofs2.
 Import ListNotations.
 Local Open Scope string_scope.
